@@ -43,6 +43,7 @@ typedef struct {
     uint64_t nops;  /* hooked operations executed */
     uint64_t nsteps; /* scheduling steps inside the window */
     uint64_t newstates;
+    uint32_t skipped_p; /* preemption alternatives seen but unaffordable */
     uint64_t tracehash;
     int obslen;
     char obs[1024];
